@@ -8,7 +8,7 @@ PROPS = {
         "level_text": "Generated probe histories x deadline placements x slots are executed against the real Router in a virtual-time bubble; an oracle over the fake targets' own logs (first accepted 2xx probe per target, arrival time of every client request) and the command result decides the property on each execution. Held-on-K-executions evidence, not a proof. Three scenarios run in real time on loopback targets (a probe in flight when the deploy deadline passes and answered 2xx afterwards): the outcome of the command and the targets' own request counts decide, never the clock.",
         "level_note": "Trusted: go1.26.8 synctest clock and net.Pipe network, the fake targets' logs, harness generators. Ties (first success within 200ms of the deadline) are skipped and counted.",
         "shards_quick": 4, "shards_thorough": 16, "timeout": 900,
-        "rule": "scenario = (old targets, 1-4 new targets each with a probe script {refuse,500,404,301,199,slow,close}^k then 200 or never, "
+        "rule": "scenario = (old targets, 1-4 new targets each with a probe script {refuse,500,404,301,199,slow,close}^k then 200 or never, ; gated family: + (gate paused|stopped, resume mid|after)"
                 "deploy timeout placed before/after the last first-success, slot active|rollout, client stream every ~40ms of virtual time); "
                 "a class is (n-targets, script-shape multiset, deadline placement, slot, outcome); non-trivial = at least one new target had a failing probe "
                 "or the command failed",
@@ -43,7 +43,7 @@ PROPS["C07"] = {
     "technique": "runtime monitor: per-service timeline model (state, max-pause, generation, split) judges every request's outcome and exact virtual completion instant",
     "level_text": "Random command histories (pause, repeated pause, resume, stop, redeploy, rollout deploy/set/stop at lattice instants) with 1-30 requests arriving anywhere are executed in virtual time; a timeline model built from the command log gives, per request, the set of allowed outcomes (forwarded at the resume instant to the side/generation current then, 503+message at the stop instant, 504 at arrival+max-pause, 200 by the proxy for health-path GETs) and the request as received by the target is compared with what was sent. Requests placed in the gate/claim window of a pause must not be refused.",
     "level_note": "Trusted: synctest clock, timeline model (written from the statement), eps=100ms; timer expiry within 2 eps of a release instant is a tie; for requests already held when pause is repeated either max-pause is accepted.",
-    "rule": "a class is (n targets, sequence of command kinds, set of outcome kinds observed, placed?); non-trivial = at least one request was held longer than eps or was placed in a gate/claim window",
+    "rule": "a class is (n targets, sequence of command kinds, set of outcome kinds observed, placed?); non-trivial = at least one request was held longer than eps or was placed in a gate/claim window; plus gate-hammer classes (waiters) from the gate-level stop/pause alternation",
     "assumptions": ["targets healthy and instantaneous, so commands take no virtual time", "go1.26.8 synctest"],
 }
 
@@ -75,7 +75,7 @@ PROPS["C04"] = {
     "technique": "differential runtime check: real router vs an independent reference routing function over a host x path probe matrix, three construction orders incl. restart",
     "level_text": "Random conflict-free tables of 1-6 services (hosts from a collision-forcing alphabet incl. wildcards and the no-host default, prefixes with look-alikes, spelled as an operator might) are built three ways - random deploy order, another order with redeploys that move bindings, and restored from the state file - and each answers a 22-host x 26-path probe matrix sent as raw HTTP through the real server chain; every cell must equal a 20-line reference written from the statement. The thorough tier also enumerates every table of one or two single-binding services.",
     "level_note": "Trusted: the reference function, the fake targets' marker header. Hosts are lower-case; paths use unreserved characters only (decoded == raw).",
-    "rule": "a class is the multiset of (hosts, prefixes) of the table; non-trivial = table with >= 2 services (or a table of the exhaustive small-scope part)",
+    "rule": "a class is the multiset of (hosts, prefixes) of the table; non-trivial = table with >= 2 services (or a table of the exhaustive small-scope part); overlap-then-restart classes: (mode, holder command kind, late command kind)",
     "assumptions": ["go1.26.8 net/http request parsing of the Host header"],
 }
 
@@ -85,7 +85,7 @@ PROPS["C05"] = {
     "technique": "runtime monitor: sequential ownership-map oracle after every command, and porcupine linearizability check of recorded concurrent deploy/remove/lookup histories",
     "level_text": "Sequential histories of deploy/redeploy/remove over overlapping host and prefix lists (default host and wildcards included) are judged step by step against a reference ownership map (command result, list output, routing of a probe panel). Concurrent histories (2-6 clients, <= 36 operations, virtual jitter at the deploy hooks so that install points interleave) are recorded at the client boundary with a logical clock and checked with porcupine against the same sequential model; the final table is checked for doubly-owned pairs.",
     "level_note": "Trusted: porcupine v1.3.0, the 40-line ownership model, the reference routing function of C04. A porcupine timeout (60s) is inconclusive.",
-    "rule": "classes: sequential (number of rejected conflicting deploys, number of redeploys that moved a service, length) and concurrent (clients, overlapping deploy pairs, length); non-trivial = at least one conflict or move (sequential) or at least one pair of deploys that overlapped in time (concurrent)",
+    "rule": "classes: sequential (number of rejected conflicting deploys, number of redeploys that moved a service, length) and concurrent (clients, overlapping deploy pairs, length); non-trivial = at least one conflict or move (sequential) or at least one pair of deploys that overlapped in time (concurrent); mixed-* classes: the same for host lists that mix the default host with named and wildcard hosts",
     "assumptions": ["targets always healthy so that a deploy reaches its install point at once"],
 }
 
@@ -95,7 +95,7 @@ PROPS["C06"] = {
     "technique": "runtime differential monitor: observable snapshot (routing, behaviour, list, state file) before vs after each failing command of every error class; probe logs watched after the failure",
     "level_text": "23 error classes (malformed target first/last/rollout, never healthy all/one/rollout/new service, unreadable or missing certificate, error-page directory missing/unparsable/empty, automatic TLS with a wildcard, host conflict by a new service and by a redeploy, unknown service for each of the seven commands, split without rollout targets) are each issued in configurations reached by random successful histories (2-13 commands over <= 4 services with options, pause/stop and rollout state varied). The failing redeploy carries changed options so that a partial application is visible. Oracle: the command reports an error, the ~100-key observable snapshot is identical before and after, and the rejected targets see no probe and no client request after the command returned (watched 40 virtual seconds).",
     "level_note": "Trusted: the snapshot panel (6 hosts x 6 paths, cookie panel, body sizes, slow request, TLS requests, list, parsed state file); classes are enumerated, configurations sampled.",
-    "rule": "a class is (error class, number of services in the configuration, error text); every evaluation is a failing command in a non-empty configuration",
+    "rule": "a class is (error class, number of services in the configuration, error text); every evaluation is a failing command in a non-empty configuration; flap-* error classes: targets that change health while the failing command is in progress",
     "assumptions": ["targets of the reached configuration are always healthy", "go1.26.8 synctest"],
 }
 
@@ -105,7 +105,7 @@ PROPS["C08"] = {
     "technique": "runtime monitor: timeline model of running/paused/stopped decides every request's outcome; independent HTML-escaping oracle on the 503 body",
     "level_text": "Histories of stop / pause / resume / deploy / rollout commands with hostile stop messages (markup, template syntax, quotes, entities, NUL, 4-byte UTF-8, 64 KiB) run with and without custom error pages (with a 503 template, without one) while GET/POST/HEAD requests to the health path, look-alikes and other paths arrive at lattice instants. The timeline model gives the allowed outcome; a 503 body must be the right page with a fragment that contains no markup characters and unescapes to the message; the targets' logs show that nothing was forwarded while stopped.",
     "level_note": "Trusted: timeline model, html.UnescapeString as the inverse of escaping (the code's escaper is not reused); NUL is compared as U+FFFD.",
-    "rule": "a class is (error-page variant, sequence of command kinds, number of distinct messages rendered); non-trivial = at least one request was answered while the service was stopped",
+    "rule": "a class is (error-page variant, sequence of command kinds, number of distinct messages rendered); non-trivial = at least one request was answered while the service was stopped; hammer / gate-hammer classes: (targets, clients | waiters) of the stop/pause alternations",
     "assumptions": ["targets healthy and instantaneous"],
 }
 
@@ -115,7 +115,7 @@ PROPS["C10"] = {
     "technique": "runtime monitor with metamorphic oracles over observed routing decisions (stickiness, monotonicity in the percentage, allowlist, share) and a history model for set/stop/redeploy",
     "level_text": "For generated well-formed cookie values all 101 percentages are set one after the other on the real router and the side that answered is observed: the same answer on repetition, included at p implies included at every p' > p, included at 100, allowlisted values always on the rollout side, requests without the cookie always active. Over 5000 (thorough 20000) random 16-hex values the included share at 13 percentages must be within 3 points. Hostile Cookie headers are judged by the metamorphic relations only. Histories of rollout deploy / set / stop / redeploy are judged by an exact model (100%, 0%+allowlist).",
     "level_note": "Trusted: fake targets' marker header. Inclusion is observed, never recomputed from the code's hash. Share tolerance +-3 points (FNV is not binomial). Empty cookie values are not generated.",
-    "rule": "classes: grid (allowlist size, decile of values included by 50%), share (percentage), history (first six commands), hostile; non-trivial = all (each evaluates >= 4000 routing decisions or a command history)",
+    "rule": "classes: grid (allowlist size, decile of values included by 50%), share (percentage), history (first six commands), hostile; non-trivial = all (each evaluates >= 4000 routing decisions or a command history); side-outage (side, all?, fault, split, windows, command in the middle, unserved?)",
     "assumptions": ["go1.26.8 net/http cookie parsing; headers rejected by net/http with 400 are outside the proxy"],
 }
 
@@ -125,7 +125,7 @@ PROPS["C11"] = {
     "technique": "runtime differential monitor (bisimulation by testing): observable snapshot of the original proxy vs a proxy restored from its state file, then the same continuation on both",
     "level_text": "Random histories of 1-15 commands over <= 4 multi-host, multi-path, multi-target services with every option varied (static certificate, wildcard hosts, sub-path services, custom error pages, buffering limits, forward headers, timeouts, health-check path/interval, header logging, pause/stop with message and max-pause, rollout targets and split). After a restart point (3 per history in quick, every prefix in thorough) a fresh router restores the file the original wrote at that point; its ~110-key observable snapshot (routing matrix with echoed URI and forwarded headers, cookie panel, body-size panel, slow request vs target timeout, requests over TLS, health-path requests, list, parsed state file, probe path and cadence seen by the targets) must equal the original's, the history's own next 1-8 commands must return the same results on it without panicking, and the snapshots must agree again afterwards.",
     "level_note": "Trusted: snapshot panel; targets always healthy (the stated licence). The health-check timeout is compared through the re-saved state file only. Commands run under recover(): a panic is a violation (it would kill the real process).",
-    "rule": "a class is (kind of the last command before the restart, kind of the first command after it, number of services saved); every restart point is an evaluation of the restore path on a non-empty history",
+    "rule": "a class is (kind of the last command before the restart, kind of the first command after it, number of services saved); every restart point is an evaluation of the restore path on a non-empty history; outage classes: (last command, targets unhealthy when saved, unhealthy at the restart, recovers afterwards)",
     "assumptions": ["go1.26.8 synctest", "static certificate generated by the harness; automatic TLS not exercised (no network)"],
 }
 
@@ -135,7 +135,7 @@ PROPS["C16"] = {
     "technique": "runtime monitor: policy table recomputed from the final set of services (reference routing of C04) judges plain and TLS requests, redirect targets and certificate decisions, across build orders and restore",
     "level_text": "Configurations of root-path services (TLS off / static certificate with and without redirect / automatic) and sub-path services over exact, wildcard and default hosts are built in different orders (random, sub-path first, root TLS flipped after the sub-path exists, root removed, restored from the state file). Plain requests (Host with ports, paths with encoded octets and //evil prefixes, hostile queries) must get exactly 301 to https://host-without-port + raw path + raw query without reaching a target when the effective policy is TLS+redirect, and be forwarded otherwise; requests over a real TLS handshake on the in-memory listener must fail the handshake for names without a TLS-enabled root-path service, get 503 from services whose effective TLS is off and be forwarded otherwise; GetCertificate is also called directly; automatic TLS with a wildcard host must be refused; no connection to the ACME directory may be attempted when no automatic-TLS service exists. One scenario runs in real time (8 clients, 6 operators deploying and removing other services, 4 s): every plain-HTTP request to a sub-path service below a TLS+redirect root is answered by the redirect.",
     "level_note": "Trusted: reference routing, harness-generated static certificate. Automatic-TLS issuance cannot run offline: for ACME services only the refusal of unbound names is decided. IPv6-literal Host headers are not generated (redirect target not fixed by the statement).",
-    "rule": "a class is (build order, kind of decision observed: redirect / plain forwarded / handshake refused / 503 over TLS / forwarded over TLS, root or sub-path service)",
+    "rule": "a class is (build order, kind of decision observed: redirect / plain forwarded / handshake refused / 503 over TLS / forwarded over TLS, root or sub-path service); reserved-path classes: (namespace, decision, root?, what answers in front)",
     "assumptions": ["multi-host sub-path services are not generated (the statement says 'its host')"],
 }
 
@@ -177,7 +177,7 @@ PROPS["C19"] = {
     "technique": "runtime monitor joining the captured access log with client-side and target-side records on a client-chosen request id",
     "level_text": "Every way a request can end is generated through the full chain with the real logging middleware writing JSON records into a captured logger: served (GET/POST/PUT/DELETE/HEAD, sizes 0 to 1 MiB, with and without buffering), 404, HTTPS redirect, 503 on TLS for a plain service, paused-out 504, stopped 503, target 502 / 504 / truncated body, 413, 500 on response overflow, client abort while waiting, during download and during upload, upgrade. Joined on the client's X-Request-ID the oracle demands exactly one record; method, host, path, query, service (reference: the service bound to the host) and target (the fake target that logged the request, none otherwise); status and resp_content_length equal to what the client received for complete responses; 499 for a client that left while the target was working; 101 for upgrades; configured request/response header fields (mixed-case names, repeated, absent) equal to the values sent.",
     "level_note": "Trusted: captured slog JSON output, client and target logs. For responses cut short and for aborts during upload/download only 'exactly one record' is demanded (the statement does not fix the status). For 413/502/504 the record may name the claimed target or none.",
-    "rule": "a class is (ending, method, response size, number of configured header fields)",
+    "rule": "a class is (ending, method, response size, number of configured header fields); cut-* / abort-download-at classes: (status, bytes sent, in chunk?, event stream?, delay, buffered?, status reached the client?)",
     "assumptions": ["go1.26.8 net/http"],
 }
 
@@ -197,7 +197,7 @@ PROPS["C20"] = {
     "technique": "black-box runtime check of the built binary: decision tables enumerated, outcomes observed from logs, a connection-counting fake socket, exit statuses and the printed table",
     "level_text": "The binary built from the working tree (repository toolchain) is exercised as a user would. (1) `run`: for http-port, https-port and debug the full table {flag absent/present} x {KAMAL_PROXY_<NAME> absent/valid/malformed} x {<NAME> absent/valid/malformed} (63 cases incl. an explicit --debug=false) is run and the effective value is read from the 'Server started' record, or from the bind error when a privileged default cannot be bound, and from the presence of debug-level records. (2) `deploy` validation: all 192 combinations (thorough; a 60-case subset incl. every TLS combination in quick) of --tls, --host, --path-prefix {none,/,/api}, the two body limits and the two buffering flags are run against a fake unix socket that counts connections: refused combinations must exit non-zero without a connection, valid ones must connect. (3) exit status of every client command for success, every server-side error and a proxy that is not running. (4) after random histories `list` rows (ANSI stripped) must equal a model of the deployed services (hosts, paths, targets, state, TLS).",
     "level_note": "Trusted: the decision table written from the statement; the fake socket. The run-option and exit-code tables are enumerated completely in both tiers; the deploy-validation table completely in the thorough tier.",
-    "rule": "a class is one row of a decision table (run option x source combination; validation flag combination; command x outcome) or a (services, history length) pair for list",
+    "rule": "a class is one row of a decision table (run option x source combination; validation flag combination; command x outcome) or a (services, history length) pair for list; run-spelling rows: (option, flag?, kind:spelling of the prefixed variable, kind:spelling of the bare variable)",
     "assumptions": ["free TCP ports can be found; privileged default ports may or may not be bindable (both handled)"],
 }
 
